@@ -84,6 +84,10 @@ static struct { int armed; int cls; long nth; int err; int persist; } g_fault;
 /* persist == 2 on class READ: the nth read is served SHORT (half of what was asked), and the
    read that follows it on any traced fd fails with the errno ("bad sector" model). */
 static int g_short_pending;      /* the current read must be shortened */
+/* persist == 3 on class WRITE: every write from the nth on is served SHORT (half of what was
+   asked, when more than one byte was asked) and returns that count without any error - legal
+   behaviour of write(2) that callers have to loop over. */
+static int g_short_write;        /* the current write must be shortened */
 static int g_fail_next_read;     /* errno for the read following a shortened one, or 0 */
 static long g_delivered;         /* number of injected errors actually returned to the caller */
 
@@ -167,6 +171,10 @@ static int account(int cls)
             if (cls == CL_READ && n == g_fault.nth) g_short_pending = 1;
             return 0;
         }
+        if (g_fault.persist == 3) {
+            if (cls == CL_WRITE && n >= g_fault.nth) g_short_write = 1;
+            return 0;
+        }
         if (n == g_fault.nth || (g_fault.persist && n > g_fault.nth)) { g_delivered++; return g_fault.err; }
     }
     return 0;
@@ -197,7 +205,7 @@ void iot_reset(void)
     g_alen = 0; g_total = 0; g_budget = -1; g_unmodelled = 0;
     memset(g_counts, 0, sizeof g_counts);
     memset(&g_fault, 0, sizeof g_fault);
-    g_short_pending = 0; g_fail_next_read = 0; g_delivered = 0;
+    g_short_pending = 0; g_fail_next_read = 0; g_delivered = 0; g_short_write = 0;
 }
 /* Also forget every path and fd association: only when the library holds no open fd. */
 void iot_reset_all(void)
@@ -387,7 +395,12 @@ ssize_t write(int fd, const void *buf, size_t n)
     pthread_mutex_lock(&g_mu);
     off = real_lseek(fd, 0, SEEK_CUR);
     inj = account(CL_WRITE);
-    if (inj) { r = -1; err = inj; } else { r = real_write(fd, buf, n); err = r < 0 ? errno : 0; }
+    if (inj) { r = -1; err = inj; }
+    else {
+        size_t want = n;
+        if (g_short_write) { g_short_write = 0; if (n > 1) { want = n / 2; g_delivered++; } }
+        r = real_write(fd, buf, want); err = r < 0 ? errno : 0;
+    }
     emit(EV_WRITE, fd, g_fdpath[fd] - 1, err, r, (uint64_t)off, n, 0, buf, r > 0 ? (uint32_t)r : 0);
     pthread_mutex_unlock(&g_mu);
     errno = err;
